@@ -1998,6 +1998,8 @@ def install(ctx):
     M['mem::replace'] = mem_replace
     M['mem::swap'] = mem_swap
     M['mem::drop'] = mem_drop
+    M['<Box as Drop>::drop'] = mem_drop
+    M['<_ as Drop>::drop'] = mem_drop
     M['drop'] = mem_drop
     M['Box::new'] = box_new
     M['Box::new_uninit'] = box_new_uninit
